@@ -42,6 +42,9 @@ def run(prog, R, tier="quick", only_rule=None):
     from rules.props import c08
     c08.c08d(prog, R, rid="C09.g")
     c09h(prog, R)
+    # "... and later the disk, exactly when nothing points into it": marks only after the version without the file is published
+    from rules.props import c05
+    c05.c05c(prog, R, rid="C09.i")
 
 
 def c09h(prog, R):
